@@ -548,6 +548,15 @@ class sptenmat:
         if isinstance(value, (int, float, np.floating)):
             value = value * np.ones((len(csubs) * len(rsubs), 1))
         value = np.asarray(value)
+        if (
+            np.any(rsubs < 0)
+            or np.any(rsubs >= self.shape[0])
+            or np.any(csubs < 0)
+            or np.any(csubs >= self.shape[1])
+        ):
+            raise IndexError("Index outside the matricized tensor")
+        if value.size != len(rsubs) * len(csubs):
+            raise ValueError("Number of values does not match the number of cells")
 
         newsubs = []
         newvals = []
